@@ -73,12 +73,11 @@ func CheckC05(r *Report) {
 	r.Rule = "E3 scorespace: all 139,968,000 v2.0 metric assignments built through Set (odometer), BaseScore/TemporalScore/EnvironmentalScore must lie in the set of conforming tenths of the exact rational evaluation of the guide equations (both neighbours at exact half-way points, sets propagated through the cascaded roundings), Impact/Exploitability within 1e-9 relative of the exact sub-scores; non-trivial = assignment whose environmental score set differs from its base score set"
 	r.Bound = "complete: every v2.0 metric assignment"
 	var ties, nontrivial, negEnv Counter
-	Iterate(I20, allDims(spec.V2), v2zero(), 16, func(idx int, a spec.Assignment, o *gocvss20.CVSS20) {
+	dims2 := allDims(spec.V2)
+	Iterate(I20, dims2, v2zero(), 16, func(idx int, a spec.Assignment, o *gocvss20.CVSS20) {
 		if key, exp, obs := v2CheckObj(a, o); key != "" {
-			ac := a.Clone()
-			r.Violation(Case{Kind: "v2-score", Key: key, Expected: exp, Observed: obs + " on " + o.Vector(),
-				Args: map[string]any{"vector": spec.V2.Full(a)}},
-				func() bool { oo, _ := NewOS(I20, NewReport("x", "quick", 0)).Build(ac); k, _, _ := v2CheckObj(ac, &oo); return k != "" })
+			iterViolation(r, I20, dims2, v2zero(), 16, idx, a, "v2-score", key, exp, obs+" on "+o.Vector(), nil,
+				func(a spec.Assignment, o *gocvss20.CVSS20) string { k, _, _ := v2CheckObj(a, o); return k })
 		}
 		w := spec.V2Score(a)
 		if len(w.Base) > 1 || len(w.Temporal) > 1 || len(w.Env) > 1 {
@@ -109,11 +108,7 @@ func CheckC05(r *Report) {
 
 func init() {
 	replayers["v2-score"] = func(c *Case) string {
-		a, ok := spec.V2.Parse(argStr(c, "vector"))
-		if !ok {
-			return "replay vector not in the v2 language"
-		}
-		o, err := NewOS(I20, NewReport("x", "quick", 0)).Build(a)
+		a, o, err := objForReplay(I20, c)
 		if err != nil {
 			return err.Error()
 		}
